@@ -94,6 +94,8 @@ type Hand struct {
 	CutNow   bool                        // the chooser asked for a JSON rebuild before the next op (C07)
 	Diverged bool                        // replay: recorded choices no longer fit the engine's state
 	StopAt   func(gs *pf.GameState) bool // optional: stop driving when this holds (prefix-only checks)
+	lastErr  error                       // result of the last operation
+	cur      *pf.GameState               // copy of the state after the last operation
 	policy   string
 	// facts about the hand collected for evidence
 	Facts map[string]bool
@@ -263,6 +265,7 @@ func (h *Hand) do(op Op, probe bool, pre *pf.GameState) (*pf.GameState, *vlib.Vi
 	if err != nil {
 		op.Res = "err: " + err.Error()
 	}
+	h.lastErr = err
 	h.Ops = append(h.Ops, op)
 	post := Clone(h.G.GetState())
 	t := &Trans{Pre: pre, Post: post, Op: op, Err: err, Probe: probe}
@@ -279,6 +282,19 @@ func (h *Hand) do(op Op, probe bool, pre *pf.GameState) (*pf.GameState, *vlib.Vi
 
 // Run plays one hand. It returns the violation of the active property, if any.
 func (h *Hand) Run(ch Chooser) *vlib.Violation {
+	if v := h.Begin(); v != nil || h.Aborted {
+		return v
+	}
+	for {
+		done, v := h.StepOnce(ch)
+		if v != nil || h.Aborted || done {
+			return v
+		}
+	}
+}
+
+// Begin starts the game and puts the generated deck in place.
+func (h *Hand) Begin() *vlib.Violation {
 	h.Facts = map[string]bool{}
 	g := pf.NewPokerFace().NewGame(h.Cfg.Options())
 	h.G = g
@@ -305,71 +321,92 @@ func (h *Hand) Run(ch Chooser) *vlib.Violation {
 	if v := checkShuffled(h, g.GetState().Meta.Deck); v != nil {
 		return v
 	}
-	copy(g.GetState().Meta.Deck, h.Cfg.Deck)
-	cur := Clone(g.GetState())
-	for _, m := range h.Mons {
-		if v := m.Begin(h, cur); v != nil {
-			return v
-		}
+	if h.Cfg.ConstructorDeck {
+		// the deck comes straight from the engine's constructor, as table/ does it;
+		// the shuffled order is taken as it is
+		h.Cfg.Deck = cloneStrs(g.GetState().Meta.Deck)
+	} else {
+		copy(g.GetState().Meta.Deck, h.Cfg.Deck)
 	}
-	for iter := 0; ; iter++ {
-		gs := h.G.GetState()
-		ev := gs.Status.CurrentEvent
-		for _, p := range ch.Probes(h, gs) {
-			post, v := h.do(p, true, cur)
-			if v != nil || h.Aborted {
-				return v
-			}
-			cur = post
-		}
-		if ev == "GameClosed" {
-			break
-		}
-		if h.StopAt != nil && h.StopAt(gs) {
-			return nil
-		}
-		if ch.Cut(h) {
-			h.CutNow = true
-			h.Ops = append(h.Ops, Op{K: "cut", Seat: -1})
-		}
-		var op Op
-		switch ev {
-		case "ReadyRequested":
-			op = Op{K: "ready", Seat: -1}
-		case "AnteRequested":
-			op = Op{K: "ante", Seat: -1}
-		case "BlindsRequested":
-			op = Op{K: "blinds", Seat: -1}
-		case "RoundClosed":
-			op = Op{K: "next", Seat: -1}
-		case "RoundStarted":
-			op = ch.Decide(h, gs)
-		default:
-			if h.Prop == "C06" {
-				return vlib.V("C06", "unexpected-wait-event/"+ev, "the hand waits in event %q, which names no step a driver can take", ev)
-			}
-			h.Aborted = true
-			return nil
-		}
-		post, v := h.do(op, false, cur)
-		if v != nil || h.Aborted {
-			return v
-		}
-		cur = post
-		if len(h.Ops) > hardStepLimit {
-			if h.Prop == "C06" {
-				return vlib.V("C06", "no-termination", "hand not closed after %d operations", len(h.Ops))
-			}
-			h.Aborted = true
-			return nil
-		}
-	}
+	h.cur = Clone(g.GetState())
 	for _, m := range h.Mons {
-		if v := m.End(h, cur); v != nil {
+		if v := m.Begin(h, h.cur); v != nil {
 			return v
 		}
 	}
 	return nil
+}
+
+// StepOnce performs the probes and the one step of the current wait point.
+func (h *Hand) StepOnce(ch Chooser) (bool, *vlib.Violation) {
+	gs := h.G.GetState()
+	ev := gs.Status.CurrentEvent
+	for _, p := range ch.Probes(h, gs) {
+		post, v := h.do(p, true, h.cur)
+		if v != nil || h.Aborted {
+			return true, v
+		}
+		h.cur = post
+		// C06 explores the whole reachable graph: an off-protocol operation the
+		// engine accepts is an edge of it; take it again to see whether it can
+		// be taken for ever
+		if h.Prop == "C06" && h.lastErr == nil && h.G.GetState().Status.CurrentEvent != "GameClosed" {
+			for rep := 0; rep < 2 && h.lastErr == nil; rep++ {
+				post, v = h.do(p, true, h.cur)
+				if v != nil || h.Aborted {
+					return true, v
+				}
+				h.cur = post
+			}
+		}
+	}
+	if ev == "GameClosed" {
+		for _, m := range h.Mons {
+			if v := m.End(h, h.cur); v != nil {
+				return true, v
+			}
+		}
+		return true, nil
+	}
+	if h.StopAt != nil && h.StopAt(gs) {
+		return true, nil
+	}
+	if ch.Cut(h) {
+		h.CutNow = true
+		h.Ops = append(h.Ops, Op{K: "cut", Seat: -1})
+	}
+	var op Op
+	switch ev {
+	case "ReadyRequested":
+		op = Op{K: "ready", Seat: -1}
+	case "AnteRequested":
+		op = Op{K: "ante", Seat: -1}
+	case "BlindsRequested":
+		op = Op{K: "blinds", Seat: -1}
+	case "RoundClosed":
+		op = Op{K: "next", Seat: -1}
+	case "RoundStarted":
+		op = ch.Decide(h, gs)
+	default:
+		if h.Prop == "C06" {
+			return true, vlib.V("C06", "unexpected-wait-event/"+ev, "the hand waits in event %q, which names no step a driver can take", ev)
+		}
+		h.Aborted = true
+		return true, nil
+	}
+	post, v := h.do(op, false, h.cur)
+	if v != nil || h.Aborted {
+		return true, v
+	}
+	h.cur = post
+	if len(h.Ops) > hardStepLimit {
+		if h.Prop == "C06" {
+			return true, vlib.V("C06", "no-termination", "hand not closed after %d operations", len(h.Ops))
+		}
+		h.Aborted = true
+		return true, nil
+	}
+	return false, nil
 }
 
 func checkShuffled(h *Hand, deck []string) *vlib.Violation {
